@@ -25,7 +25,8 @@ META = dict(
                "Broker middlewares are not in the model (C10). prepare_label is a Section variable (C09).",
     rule="case = on_ready scenario (payload, callback kinds, outcomes) or label-source history (global+local registries, "
          "listing/firing operations); non-trivial iff >= 2 entries share a task or a time, or a callback cancels / raises / "
-         "is async; distinct by canonical JSON of the case",
+         "is not a plain sync def (async def, or a def returning a Future / Task / __await__ object / gather / shield / "
+         "executor future / generator-based coroutine); distinct by canonical JSON of the case",
     trusted_base=["model: coq/theories/SchedSource.v (hand-written transcription of scheduler.py, kicker.py message preparation, "
                   "label_based.py, AsyncBroker.get_all_tasks)",
                   "taskiq.labels.prepare_label supplies the expected wire form of each label value (Section variable `prepare`)",
@@ -89,9 +90,15 @@ def c_payload(p, T, labels_lit):
 
 
 def c_effects(effs, sid, T):
-    """observed effects -> list (eff lval); wire labels are (value, type) pairs, schedule_id recognised as LSid"""
+    """observed effects -> list (eff lval); wire labels are (value, type) pairs, schedule_id recognised as LSid.
+    The model's EPre / EPost are the instants a callback's work COMPLETES (log entries pre / post; the .begin marks are
+    the oracle's business), and only what happened before on_ready returned (the `ret` mark) is on_ready's doing."""
     out = []
     for e in effs:
+        if e[0] == "ret":
+            break
+        if e[0] in ("pre.begin", "post.begin"):
+            continue
         if e[0] in ("pre", "post"):
             out.append("(%s %s)" % ("EPre" if e[0] == "pre" else "EPost", C.cn(T.sid(e[1]))))
         else:
@@ -142,25 +149,32 @@ def kick_matches(m, sched_task, sched_args, sched_kwargs, expect_labels, sid):
 
 
 def fire_oracle(pre, kick_ok, sid, task, args, kwargs, expect_labels, effs):
-    """None if the statement holds on this observed effect list, else a description"""
-    if not effs or effs[0] != ["pre", sid]:
+    """None if the statement holds on this observed effect list, else a description.
+    effs: [pre.begin, sid] pre_send called, [pre, sid] its work completed (it then returns / raises), [kick, m],
+    [post.begin, sid] / [post, sid] likewise, [ret] on_ready returned; entries after [ret] happened too late."""
+    if not effs or effs[0] != ["pre.begin", sid]:
         return "pre_send did not run first"
     rest = effs[1:]
-    kicks = [e for e in rest if e[0] == "kick"]
-    posts = [e for e in rest if e[0] == "post"]
-    if any(e[0] == "pre" for e in rest):
+    if any(e[0] == "pre.begin" for e in rest) or sum(e[0] == "pre" for e in rest) > 1:
         return "pre_send ran twice"
+    kicks = [e for e in rest if e[0] == "kick"]
+    posts = [e for e in rest if e[0] in ("post.begin", "post")]
     if pre == "cancel":
-        return None if not rest else "cancelled schedule was sent or post_send was called"
+        return None if not kicks and not posts else "cancelled schedule was sent or post_send was called"
     if pre == "raise":
         return None if not kicks and not posts else "sent / post_send although pre_send raised"
+    if rest[:1] != [["pre", sid]]:
+        return "something was done before pre_send had completed"
+    rest = rest[1:]
     if len(kicks) != 1:
         return "%d messages sent instead of exactly one" % len(kicks)
     if not kick_matches(kicks[0][1], task, args, kwargs, expect_labels, sid):
         return "sent message differs from the schedule (task name / args / kwargs / labels + schedule_id)"
     if kick_ok:
-        if rest != [kicks[0], ["post", sid]]:
+        if [e for e in rest if e[0] != "ret"] != [kicks[0], ["post.begin", sid], ["post", sid]]:
             return "post_send did not run exactly once after the send"
+        if rest[-1:] != [["ret"]]:
+            return "post_send had not completed when on_ready returned"
     elif posts:
         return "post_send ran although the send failed"
     return None
@@ -230,6 +244,14 @@ def label_oracle(c, obs, rep):
 
 
 # ------------------------------------------------------------------ generators
+AW_STYLES = ["task", "future", "future", "done_future", "awaitobj", "gencoro", "gather", "shield", "executor"]
+LABEL_CB_STYLES = ["async", "task", "future", "awaitobj", "gencoro", "gather", "shield"]
+
+
+def style_of(c, kind):
+    return c.get(kind + "_style") or ("async" if c.get(kind + "_async") else "sync")
+
+
 POOL_KEYS = ["q", "prio", "queue", "retry", "x", "schedule_id"]
 
 
@@ -277,9 +299,29 @@ def gen_fire(r):
         p["cron"] = r.choice(["* * * * *", "*/2 * * * *"])
     if "cron" not in p or r.random() < .3:
         p["time"] = gen_time(r)
-    return dict(type="fire", sid=r.choice(["S1", "abc", "0", "7f3a"]), payload=p,
-                pre=r.choice(["ok", "ok", "ok", "cancel", "cancel", "raise"]), pre_async=r.random() < .5,
-                post_ok=r.random() < .85, post_async=r.random() < .5, kick_ok=r.random() < .85)
+    c = dict(type="fire", sid=r.choice(["S1", "abc", "0", "7f3a"]), payload=p,
+             pre=r.choice(["ok", "ok", "ok", "cancel", "cancel", "raise"]), pre_async=r.random() < .5,
+             post_ok=r.random() < .85, post_async=r.random() < .5, kick_ok=r.random() < .85)
+    # a quarter of the callbacks are plain defs handing back an awaitable that is not a coroutine object (see the driver)
+    for kind in ("pre", "post"):
+        if r.random() < .25:
+            del c[kind + "_async"]
+            c[kind + "_style"] = r.choice(AW_STYLES)
+            c[kind + "_d"] = r.choice([0, 0, 1, 1000, 2_000_000])
+            c[kind + "_when"] = r.choice(["await", "await", "call"])
+        elif c[kind + "_async"] and r.random() < .3:
+            c[kind + "_d"] = r.choice([1, 1000])                  # an `async def` callback that takes (virtual) time
+        if r.random() < .2:
+            c[kind + "_ret"] = r.choice([False, True, 0, "", "cancel", [1]])   # callbacks need not return None
+    if r.random() < .2:
+        c["kick_d"] = r.choice([1, 1000, 3_000_000])
+    if r.random() < .25:
+        c["bind"] = r.choice(["instance", "callable"])            # callbacks bound late, on the instance
+    if r.random() < .15:
+        c["registered"] = False                                   # a source the scheduler was not built with
+    if c["pre"] == "cancel" and r.random() < .2:
+        c["cancel_cls"] = "sub"
+    return c
 
 
 def gen_entry(r, uid):
@@ -334,12 +376,15 @@ def gen_label(r, exhaustive_ops=None):
         ops.append(["list"] if r.random() < .25 else ["fire", r.randint(0, 3), r.randint(0, 11)])
     if r.random() < .5:
         ops.append(["list"])
-    return dict(type="label", globals=globs, locals=locs, ops=exhaustive_ops or ops)
+    c = dict(type="label", globals=globs, locals=locs, ops=exhaustive_ops or ops)
+    if r.random() < .2:
+        c["cb_style"] = r.choice(LABEL_CB_STYLES)     # a wrapping source that defers the label source's own callbacks
+    return c
 
 
 def nontrivial(c):
     if c["type"] == "fire":
-        return c["pre"] != "ok" or c["pre_async"] or c["post_async"]
+        return c["pre"] != "ok" or style_of(c, "pre") != "sync" or style_of(c, "post") != "sync"
     for t in c["globals"] + c["locals"]:
         ents = [e for e in (t["schedule"] or []) if "cron" in e or "time" in e]
         if len(ents) >= 2:
@@ -410,6 +455,21 @@ def explore(ctx, rep, cases, label):
             rep.count("fire:pre=%s" % c["pre"])
             rep.count("fire:kick_ok=%s" % c["kick_ok"])
             rep.count("fire:result=%s" % o["result"])
+            for kind in ("pre", "post"):
+                st = style_of(c, kind)
+                rep.count("fire:%s_style=%s" % (kind, st))
+                if st not in ("sync", "async"):
+                    rep.count("fire:%s non-coroutine awaitable, %s" % (kind, "delayed" if c.get(kind + "_d") else "immediate"))
+                if kind + "_ret" in c:
+                    rep.count("fire:%s returns a value" % kind)
+            if style_of(c, "pre") not in ("sync", "async") and c["pre"] != "ok":
+                rep.count("fire:pre %s raised %s" % (c["pre"], "inside the awaitable" if c.get("pre_when") != "call" else "by the def"))
+            rep.count("fire:bind=%s" % c.get("bind", "class"))
+            rep.count("fire:source registered=%s" % c.get("registered", True))
+            if c.get("kick_d"):
+                rep.count("fire:kick takes time")
+            if c.get("cancel_cls") == "sub":
+                rep.count("fire:cancel by subclass")
             p = c["payload"]
             bad = fire_oracle(c["pre"], c["kick_ok"], c["sid"], p["task"], o["sched_args"], o["sched_kwargs"],
                               o["expect_labels"], o["effects"])
@@ -421,6 +481,7 @@ def explore(ctx, rep, cases, label):
             except AssertionError as e:
                 rep.fail("observation not encodable", c, observed=str(e))
         else:
+            rep.count("label:cb_style=%s" % c.get("cb_style", "sync"))
             for x in o["obs"]:
                 rep.count("label:op=" + x["op"])
                 if x["op"] == "list":
